@@ -10,6 +10,7 @@ import (
 	"os"
 	"reflect"
 	"strconv"
+	"strings"
 
 	"github.com/high-moctane/mocrelay"
 )
@@ -229,6 +230,9 @@ func (u Universe) Event(r *Rand, idx int) JEvent {
 	if u.Extreme > 0 && r.Chance(u.Extreme) {
 		e.Kind = Pick(r, OddKinds)
 	}
+	if u.Extreme > 0 && r.Chance(u.Extreme) {
+		e.PK = strings.ToUpper(e.PK) // strings are compared as they are: "PA" is not "pa"
+	}
 	if idx >= 0 {
 		e.ID = "id" + strconv.Itoa(idx)
 	}
@@ -275,6 +279,9 @@ func (u Universe) Filter(r *Rand, sel int) JFilter {
 	}
 	if r.Chance(sel) {
 		f.Authors = Ptr(subset(r, u.PKs, r.Chance(15)))
+		if u.Extreme > 0 && len(*f.Authors) > 0 && r.Chance(2*u.Extreme) {
+			(*f.Authors)[0] = strings.ToUpper((*f.Authors)[0])
+		}
 	}
 	if r.Chance(sel) {
 		ks := []int64{}
